@@ -102,8 +102,9 @@ example :
   decide
 
 /-- Every class of `intermediate/_types.py` with pickling hooks recomputes in `__setstate__` exactly
-what `__getstate__` drops, with the same `_compute_*` function the constructor/setter path uses, and
-drops every `*_id_set` attribute (ids do not survive pickling). -/
+what `__getstate__` drops, with the same `_compute_*` function FED WITH THE SAME SOURCE ATTRIBUTE as on
+the constructor/setter path (a recomputation is named `<fn><-<source attribute>` in Gen), and drops
+every `*_id_set` attribute (ids do not survive pickling). -/
 theorem pickle_hooks_ok : Gen.Cache.pickleHooks.all (·.ok) = true := by
   decide +kernel
 
